@@ -104,11 +104,45 @@ def forward_only(run, sc):
                 return
 
 
+def foreign_reference_elements(run, sc):
+    """a node's references are the Reference children of its References element: elements that merely bear that name elsewhere inside the
+    node (vendor data in an Extensions block, in the document's default namespace or in a vendor's) declare nothing"""
+    import os
+    from opcua_tools.nodeset_parser import parse_xml, parse_xml_files
+    nodes = ('<UAObject NodeId="ns=1;i=1" BrowseName="1:a"><DisplayName>a</DisplayName><References><Reference ReferenceType="i=47">ns=1;i=2</Reference></References>'
+             '<Extensions><Extension><Links><Reference ReferenceType="i=35" IsForward="false">ns=1;i=3</Reference></Links></Extension>'
+             '<Extension><v:Links xmlns:v="urn:vendor"><v:Reference ReferenceType="i=35">ns=1;i=3</v:Reference></v:Links></Extension></Extensions></UAObject>'
+             '<UAObject NodeId="ns=1;i=2" BrowseName="1:b"><DisplayName>b</DisplayName><References><Reference ReferenceType="i=47" IsForward="false">ns=1;i=1</Reference>'
+             '<Reference ReferenceType="i=35">ns=1;i=3</Reference></References></UAObject>'
+             '<UAObject NodeId="ns=1;i=3" BrowseName="1:c"><DisplayName>c</DisplayName><References/></UAObject>')
+    text = ('<?xml version="1.0" encoding="utf-8"?>\n<UANodeSet xmlns="http://opcfoundation.org/UA/2011/03/UANodeSet.xsd"><NamespaceUris><Uri>urn:ext</Uri></NamespaceUris>'
+            '<Aliases/>' + nodes + "</UANodeSet>")
+    declared = sorted([("ns=1;i=1", "ns=1;i=2", "i=47"), ("ns=1;i=2", "ns=1;i=3", "i=35")])
+    d = sc.sub("ext")
+    path = os.path.join(d, "x.xml")
+    open(path, "w", encoding="utf-8").write(text)
+    case = {"files": {"x.xml": text}}
+    run.case({"foreign_reference_elements": 1, "triples": len(declared)}, tag="foreign-reference-elements")
+    for entry, fn in (("parse_xml", lambda: parse_xml(path)), ("parse_xml_files", lambda: parse_xml_files([path]))):
+        try:
+            out = fn()
+        except Exception as e:  # noqa: BLE001
+            run.violation(case, {"what": "%s raised" % entry, "impl": type(e).__name__ + ": " + str(e)[:200]})
+            return
+        lk = out["lookup_df"]["uniques"].tolist()
+        got = sorted((str(lk[int(a)]), str(lk[int(b)]), str(lk[int(c)])) for a, b, c in zip(out["references"]["Src"], out["references"]["Trg"], out["references"]["ReferenceType"]))
+        if got != declared:
+            run.violation(case, {"what": "%s: the references table is not exactly the declared relation (a triple was invented from an element outside the node's References)" % entry,
+                                 "impl": got, "expected": declared, "call": "opcua_tools.%s(file)['references']" % entry})
+            return
+
+
 def explore(run):
     rng = run.rng
     thorough = run.tier == "thorough"
     with minibase.Scratch() as sc:
         forward_only(run, sc)
+        foreign_reference_elements(run, sc)
         if run.full():
             return
         large_graph(run, sc, 70000 if thorough else 33000)
